@@ -1,10 +1,13 @@
 /-
   C09 — printed value and uncertainty are the correctly rounded pair in every style.
 
-  Model: `QExPy/Model/Printing.lean` (exact over ℚ) with the constants generated from
-  qexpy/utils/printing.py on every run (`QExPy/Generated/Printing.lean`).
+  Model: `QExPy/Model/Printing.lean` (exact over ℚ, follows printing.py step by step) with the
+  constants generated from qexpy/utils/printing.py on every run (`QExPy/Generated/Printing.lean`:
+  back-off exponent, decimals formula, clip, rounding function, fallback order).
+  Spec: `Printing.PrintedOK v e cfg p` (decidable; the same definition is evaluated by the driver
+  command `print_spec` on the real library's parsed output).
 -/
-import QExPy.Model.Printing
+import QExPy.Lemmas.Printing
 
 namespace QExPy
 open Printing
@@ -13,5 +16,64 @@ open Printing
     (so every pair of finite floats, including value 0, negatives, uncertainty 0) and every
     configuration yields a printed form. -/
 theorem C09_total (cfg : PCfg) (v e : Rat) : ∃ p : Printed, fmt cfg v e = p := ⟨_, rfl⟩
+
+/-- **C09 (rounding).** `roundHE` (Python's `round`) moves a number by at most one half. -/
+theorem C09_round_bound (q : ℚ) : |(roundHE q : ℚ) - q| ≤ 1 / 2 := roundHE_bound q
+
+/-- **C09 (order of magnitude).** `ilog10 q = ⌊log₁₀|q|⌋`, exactly: `10^k ≤ |q| < 10^(k+1)`,
+    and this `k` is unique (so values at and next to exact powers of ten get the right order). -/
+theorem C09_ilog10_spec (q : ℚ) (hq : q ≠ 0) :
+    p10 (ilog10 q) ≤ |q| ∧ |q| < p10 (ilog10 q + 1) ∧
+    ∀ k : ℤ, p10 k ≤ |q| → |q| < p10 (k + 1) → k = ilog10 q := by
+  obtain ⟨h1, h2⟩ := ilog10_spec q hq
+  exact ⟨h1, h2, fun k a b => (ilog10_unique q k a b).symm⟩
+
+/-- **C09 (significant figures).** Rounding `x ≠ 0` to `n ≥ 1` significant figures gives an
+    `n`-digit mantissa, or `10^n` exactly when the rounding carries into the next decade
+    (`0.096 → 0.1`, `9.96 → 10`, `99.96 → 100`). -/
+theorem C09_sig_round (x : ℚ) (hx : x ≠ 0) (n : ℕ) (hn : 1 ≤ n) :
+    let m := roundHE (x / p10 (ilog10 x - n + 1))
+    (10 : ℚ) ^ (n - 1) ≤ |(m : ℚ)| ∧ |(m : ℚ)| ≤ (10 : ℚ) ^ n := by
+  obtain ⟨k, rfl⟩ : ∃ k, n = k + 1 := ⟨n - 1, by omega⟩
+  exact (sig_round x hx k).1
+
+/-- **C09 (main).** For every value and uncertainty (all rationals, hence all finite floats:
+    zero, negative, at or next to powers of ten, carrying or not), every style, every
+    significant-figure mode and every `n ≥ 1`, what the model prints satisfies `PrintedOK`:
+    one common decimal place; that place is the one of the n-th significant figure of the
+    uncertainty (automatic / error mode) or of the value (value mode), one above it when the
+    rounding carries; both numbers are multiples of that place and within (1/2 + 1/20) of a unit
+    of it from the true numbers; with nothing to fix a place (pivot 0) both are within that
+    allowance of the last printed place. -/
+theorem C09_model_ok (cfg : PCfg) (v e : ℚ) (hn : 1 ≤ cfg.n) : PrintedOK v e cfg (fmt cfg v e) := by
+  have hdef : ∀ latex, PrintedOK v e cfg (defaultPrinter cfg v e latex) := by
+    intro latex
+    by_cases h : v = 0 ∧ e = 0
+    · obtain ⟨rfl, rfl⟩ := h
+      simp only [defaultPrinter, and_self, if_true]
+      exact zeroForm_ok cfg latex
+    · rw [defaultPrinter_eq cfg v e latex h]
+      exact genP_ok cfg v e 0 false latex hn
+  have hsci : ∀ latex, PrintedOK v e cfg (sciPrinter cfg v e latex) := by
+    intro latex
+    unfold sciPrinter
+    by_cases h : v = 0 ∧ e = 0
+    · obtain ⟨rfl, rfl⟩ := h
+      simp only [and_self, if_true]
+      exact zeroForm_ok cfg latex
+    · simp only [if_neg h]
+      generalize (if v ≠ 0 then ilog10 v else ilog10 e) = ord
+      by_cases ho : ord = Gen.sciFallbackOrder
+      · simp only [if_pos ho]; exact hdef latex
+      · simp only [if_neg ho]; exact genP_ok cfg v e ord true latex hn
+  unfold fmt
+  cases cfg.style
+  · exact hdef false
+  · exact hsci false
+  · exact hsci true
+
+/-- non-vacuity: the hypothesis of `C09_model_ok` is met by every configuration of the domain
+    (n = 1 … 6) -/
+example : 1 ≤ ({ style := .scientific, mode := .value, n := 2 } : PCfg).n := by decide
 
 end QExPy
